@@ -31,9 +31,10 @@
    to merge the contents of two econf_files.  */
 
 
-/* Insert the content of "etc_file.file_entry" into "fe" if there is no
+/* Insert the entries of both files into "fe" for which there is no
    group specified.  */
-size_t insert_nogroup(econf_file *dest_kf, struct file_entry **fe, econf_file *ef);
+size_t insert_nogroup(econf_file *dest_kf, struct file_entry **fe,
+		      econf_file *uf, econf_file *ef);
 
 /* Merge contents from existing usr_file groups */
 size_t merge_existing_groups(econf_file *dest_kf, struct file_entry **fe, econf_file *uf, econf_file *ef,
